@@ -128,6 +128,10 @@ func (r *runner) doClose(cl *CloseSpec, pos int, with []Op) {
 			r.execOp(pos, &with[j], start)
 		}
 	}
+	if r.partial != nil {
+		// what was in flight survives a crash of this process
+		r.partial(r.result(true))
+	}
 	close(start)
 	tm := time.NewTimer(closeLimit)
 	select {
@@ -138,6 +142,14 @@ func (r *runner) doClose(cl *CloseSpec, pos int, with []Op) {
 	tm.Stop()
 	synctest.Wait()
 	r.endBurst()
+	r.mu.Lock()
+	cs, cr := r.closeStart, r.closeRet
+	r.mu.Unlock()
+	if cr >= 0 {
+		r.orc("oracle 1 (returns): %s expected to return within 2 h of virtual time (<= 66 s when a RESULT retry is pending); invoked at %d ms, returned at %d ms", cl.Kind, ms(cs), ms(cr))
+	} else {
+		r.orc("oracle 1 (returns): %s invoked at %d ms has NOT returned", cl.Kind, ms(cs))
+	}
 	if cl.Kind == "Close" {
 		r.routerDown = true
 	} else {
@@ -180,6 +192,8 @@ func (r *runner) checkTold(realm string) {
 		if !told {
 			bad = append(bad, fmt.Sprintf("s%d (gone=%q)", s.idx, s.gone))
 		}
+		r.orcLog = append(r.orcLog, fmt.Sprintf("oracle 3 (clients told): s%d expected GOODBYE wamp.close.system_shutdown or closed transport; observed end=%q, recv channel closed=%v (at %d ms)",
+			s.idx, s.gone, s.recvEOF, ms(s.closedAt)))
 	}
 	r.mu.Unlock()
 	if len(bad) > 0 {
@@ -212,9 +226,8 @@ func (r *runner) lateAttach(realm string) {
 	case err := <-res:
 		if err == nil {
 			r.fail("late-attach", "late-attach:accepted", "Attach to closed realm "+realm+" returned nil")
-		} else {
-			r.note("late attach to %s: %v", realm, err)
 		}
+		r.orc("oracle 4 (late attach to %s): expected an error, no panic, no hang; Attach returned: %v", realm, err)
 	case <-tm.C:
 		r.mu.Lock()
 		failed := false
@@ -252,7 +265,7 @@ func (r *runner) lateAPI() {
 		}
 		tm.Stop()
 	}
-	// A realm that AddRealm did create after Close must not stay behind.
+	r.orc("oracle 4 (AddRealm / RemoveRealm after Close): expected to return without panic; failures so far: %v", r.hasFail("late-api"))
 	synctest.Wait()
 }
 
@@ -336,6 +349,7 @@ func (r *runner) leakCheck(oracle string) {
 	}
 	sortStrings(left)
 	r.left = append(append([]string{}, left...), harness...)
+	r.orc("oracle 5 (bubble drains): expected no goroutine of the router left; observed %d router goroutine(s) %v, %d harness goroutine(s) %v", len(left), left, len(harness), harness)
 	if len(left) > 0 {
 		uniq := []string{}
 		for i, f := range left {
@@ -425,10 +439,12 @@ func (r *runner) roundTrips(removed string) {
 		}
 		r.mu.Unlock()
 		if len(bad) > 0 {
+			r.orc("oracle 6 (other realms unaffected): round %d FAILED: %s", round, strings.Join(bad, "; "))
 			r.violation("other-realm-affected", strings.Join(bad, "; "), false)
 			return
 		}
 	}
+	r.orc("oracle 6 (other realms unaffected): %d session(s) outside %q did subscribe / publish(ack) / call round trips, all answered at the instant of the request", len(tested), removed)
 }
 
 func (r *runner) finishC06() {
@@ -451,8 +467,10 @@ func (r *runner) finishC06() {
 			r.lateAttach(cl.Realm)
 			r.roundTrips(cl.Realm)
 		}
+		r.emitPartial()
 		time.Sleep(time.Duration(hours) * time.Hour)
 		synctest.Wait()
+		r.orc("oracle 2 (no panic then or later): advanced %d h of virtual time after the close returned; this process is still alive", hours)
 		if cl.Kind == "RemoveRealm" {
 			r.roundTrips(cl.Realm)
 			r.finalClose("goroutine-leak")
